@@ -1519,7 +1519,7 @@ class LinearOperator(object):
         """
         try:
             evals, evecs = pop_from_cache(self, "symeig", eigenvectors=True)
-            return evals, None
+            return evals, evecs
         except CachingError:
             pass
         return self._symeig(eigenvectors=True)
@@ -1542,7 +1542,7 @@ class LinearOperator(object):
         """
         try:
             evals, evecs = pop_from_cache(self, "symeig", eigenvectors=True)
-            return evals, None
+            return evals
         except CachingError:
             pass
         return self._symeig(eigenvectors=False)[0]
